@@ -69,3 +69,31 @@ def gen_tokenizer(items):
             return D('SNIPPET_STOP_OFFSET_IS_MAX', 1, 'try_add_token: `self.stop_offset = self.stop_offset.max(token.offset_to)` (0 = plain assignment, 1 = running maximum)')
         raise Fail(f'{sn}: try_add_token no longer sets stop_offset to token.offset_to or to the running maximum')
     items.append(stop_offset_rule)
+
+    def split_clears():
+        # SplitCompoundWordsFilter keeps `cuts` and `parts` in the tokenizer (reused by every stream)
+        f = 'src/tokenizer/split_compound_words.rs'
+        body = fn_body(f, 'token_stream')
+        if 'SplitCompoundWordsTokenStream' not in body:
+            raise Fail(f'{f}: token_stream no longer builds a SplitCompoundWordsTokenStream')
+        if not re.search(r'parts\s*:\s*&mut\s+self\.parts', body):
+            raise Fail(f'{f}: the stream no longer borrows the `parts` buffer of the tokenizer')
+        cleared = bool(re.search(r'self\.parts\.clear\(\)\s*;', body))
+        return D('SPLIT_COMPOUND_CLEARS_PARTS', 1 if cleared else 0,
+                 'SplitCompoundWordsFilter::token_stream: 1 = `self.parts.clear()` before the stream is built')
+    items.append(split_clears)
+
+    def tokenizers_reset():
+        # every scanning tokenizer keeps its Token in the tokenizer and must reset it per stream
+        names = ['simple_tokenizer', 'whitespace_tokenizer', 'regex_tokenizer', 'ngram_tokenizer', 'facet_tokenizer', 'raw_tokenizer']
+        ok = all(re.search(r'self\.token\.reset\(\)\s*;', fn_body(f'src/tokenizer/{n}.rs', 'token_stream')) for n in names)
+        return D('TOKENIZERS_RESET_TOKEN', 1 if ok else 0,
+                 '1 = every built-in tokenizer calls `self.token.reset()` in token_stream')
+    items.append(tokenizers_reset)
+
+    def reset_position():
+        body = fn_body('tokenizer-api/src/lib.rs', 'reset')
+        m = re.search(r'self\.position\s*=\s*usize::MAX\s*;', body)
+        return D('TOKEN_RESET_POSITION_IS_MAX', 1 if m else 0,
+                 'Token::reset: 1 = `self.position = usize::MAX` (the first `wrapping_add(1)` gives position 0)')
+    items.append(reset_position)
